@@ -1,11 +1,11 @@
 (* C19 -- property theorems only.  Each is closed by [exact] of a lemma of Proofs.v /
    FloatProofs.v and followed by Print Assumptions.
    Model: coq/C19/Model.v (exact, Qc), coq/lib/NpF.v (binary64), coq/lib/Bsp.v (findspan). *)
-From Coq Require Import QArith Qcanon List Arith Bool Permutation.
+From Coq Require Import QArith Qcanon ZArith List Arith Bool Permutation.
 From Verif.lib Require Import Bsp NpCore NpQ NpF.
 From Verif.C02 Require Import Proofs.
 From Verif.C02 Require Proofs_ref.
-From Verif.C19 Require Import Model Proofs Proofs2 Proofs3 Proofs4 Proofs5 Proofs6 Proofs7 FloatProofs.
+From Verif.C19 Require Import Model Model2 Proofs Proofs2 Proofs3 Proofs4 Proofs5 Proofs6 Proofs7 Proofs8 Proofs9 FloatProofs.
 Import ListNotations.
 Open Scope Qc_scope.
 
@@ -273,11 +273,129 @@ Theorem derivative_spline : forall kv q c u, let p := S q in
 Proof. exact derivative_spline_l. Qed.
 Print Assumptions derivative_spline.
 
-(* NOT PROVED (covered by the correspondence run only):
-   - non-singularity of the Greville collocation matrix (Schoenberg-Whitney theorem / total positivity);
-     proved are its hypotheses: the position of the points (greville_unisolvent_partial) and the
-     positive diagonal N_i(g_i) > 0 (greville_diag_pos).
-   - np.allclose-style comparisons are modelled over exact rationals; the binary64 evaluation of
-     __eq__ is compared on inputs away from the tolerance threshold and scanned for asymmetry.
-   - the binary64 constructor outside the 16 listed intervals / n > 2000 (bit-exact tie on random
-     intervals only). *)
+(* ---- knots_to_mesh as order isomorphism; spans <-> mesh cells; mesh-support pairs (every knot vector) ---- *)
+(* k2m kv i = knots_to_mesh[i] *)
+
+(* monotone; strictly increasing exactly where the knot values increase *)
+Theorem k2m_monotone : forall kv i j, kv_valid kv = true -> (i <= j)%nat -> (j < length kv)%nat ->
+  (k2m kv i <= k2m kv j)%nat.
+Proof. exact k2m_monotone_l. Qed.
+Print Assumptions k2m_monotone.
+
+Theorem k2m_strict_iff : forall kv i j, kv_valid kv = true -> (i <= j)%nat -> (j < length kv)%nat ->
+  ((k2m kv i < k2m kv j)%nat <-> kn kv i < kn kv j).
+Proof. exact k2m_lt_iff. Qed.
+Print Assumptions k2m_strict_iff.
+
+(* across a non-empty span the mesh index advances by exactly one; it starts at 0 and ends at numspans *)
+Theorem k2m_step : forall kv i, kv_valid kv = true -> (S i < length kv)%nat -> kn kv i < kn kv (S i) ->
+  k2m kv (S i) = S (k2m kv i).
+Proof. exact k2m_step_l. Qed.
+Print Assumptions k2m_step.
+
+Theorem k2m_first : forall kv, kv_valid kv = true -> kv <> [] -> k2m kv 0 = 0%nat.
+Proof. exact k2m_first_l. Qed.
+Print Assumptions k2m_first.
+
+Theorem k2m_last : forall kv, kv_valid kv = true -> kv <> [] -> k2m kv (length kv - 1) = numspans kv.
+Proof. exact k2m_last_l. Qed.
+Print Assumptions k2m_last.
+
+(* the listed spans are, in order, the knot spans of mesh cells 0, 1, ..., numspans-1 *)
+Theorem span_indices_cells : forall kv, kv_valid kv = true -> kv <> [] ->
+  map (k2m kv) (mesh_span_indices kv) = seq 0 (numspans kv).
+Proof. exact span_indices_cells_l. Qed.
+Print Assumptions span_indices_cells.
+
+(* ... i.e. for the m-th listed span i, mesh cell m is exactly [kv[i], kv[i+1]] *)
+Theorem span_cell : forall kv m, kv_valid kv = true -> kv <> [] -> (m < numspans kv)%nat ->
+  let i := nth m (mesh_span_indices kv) 0%nat in
+  (S i < length kv)%nat /\ k2m kv i = m /\ k2m kv (S i) = S m /\
+  nth m (mesh kv) 0 = kn kv i /\ nth (S m) (mesh kv) 0 = kn kv (S i) /\ kn kv i < kn kv (S i).
+Proof. exact span_cell_l. Qed.
+Print Assumptions span_cell.
+
+(* mesh_support_idx j = (lo, hi) is an ordered pair of mesh indices <= numspans, strictly ordered iff
+   the support of function j is not degenerate *)
+Theorem mesh_support_idx_ordered : forall kv p j, kv_valid kv = true -> (j + p + 1 < length kv)%nat ->
+  let '(lo, hi) := mesh_support_idx kv p j in
+  (lo <= hi)%nat /\ (hi <= numspans kv)%nat /\ ((lo < hi)%nat <-> kn kv j < kn kv (j + p + 1)).
+Proof. exact mesh_support_idx_ordered_l. Qed.
+Print Assumptions mesh_support_idx_ordered.
+
+(* support() = (mesh[0], mesh[numspans]) *)
+Theorem support_all_mesh : forall kv, kv_valid kv = true -> kv <> [] ->
+  support_all kv = (nth 0 (mesh kv) 0, nth (numspans kv) (mesh kv) 0).
+Proof. exact support_all_mesh_l. Qed.
+Print Assumptions support_all_mesh.
+
+(* ---- span search: array version, first-active indices, uniqueness on constructed vectors ---- *)
+
+Theorem findspans_spec : forall kv p us, length (findspans kv p us) = length us /\
+  forall i, (i < length us)%nat -> nth i (findspans kv p us) 0%nat = findspan kv p (nth i us 0).
+Proof. exact findspans_spec_l. Qed.
+Print Assumptions findspans_spec.
+
+(* first_active_at(u) .. first_active_at(u)+p are valid dof indices *)
+Theorem first_active_range : forall kv p u, kv_ok kv p -> kn kv 0 <= u -> u <= kn kv (length kv - 1) ->
+  (0 <= first_active_at_z kv p u)%Z /\
+  (first_active_at_z kv p u + Z.of_nat p < Z.of_nat (numdofs kv p))%Z /\
+  first_active_at_z kv p u = Z.of_nat (first_active_at kv p u).
+Proof. exact first_active_range_l. Qed.
+Print Assumptions first_active_range.
+
+(* pyx_findspans(kv, p, nodes) - p, as used by collocation_info, is first_active_at entry by entry *)
+Theorem first_active_all_spec : forall kv p us i, (i < length us)%nat ->
+  nth i (first_active_all kv p us) 0%Z = first_active_at_z kv p (nth i us 0).
+Proof. exact first_active_all_spec_l. Qed.
+Print Assumptions first_active_all_spec.
+
+Theorem make_knots_findspan_unique : forall p a b n mult u t, a < b -> (1 <= n)%nat -> (1 <= mult)%nat ->
+  a <= u -> u < b ->
+  let kv := make_knots p a b n mult in
+  (S t < length kv)%nat -> kn kv t <= u -> u < kn kv (S t) -> t = findspan kv p u.
+Proof. exact make_knots_findspan_unique_l. Qed.
+Print Assumptions make_knots_findspan_unique.
+
+(* support() and meshsize_avg() of a constructed vector *)
+Theorem make_knots_support_meshsize : forall p a b n mult, a < b -> (1 <= n)%nat -> (1 <= mult)%nat ->
+  let kv := make_knots p a b n mult in
+  support_all kv = (a, b) /\ meshsize_avg kv = (b - a) / natq n.
+Proof. exact make_knots_support_meshsize_l. Qed.
+Print Assumptions make_knots_support_meshsize.
+
+(* refinement is nested: multiplicities add up, the old mesh is contained in the new one, numdofs grows by
+   the number of inserted knots *)
+Theorem refine_nested : forall kv new_knots p,
+  (forall x, count_occ Qc_eq_dec (refine kv new_knots) x =
+             (count_occ Qc_eq_dec kv x + count_occ Qc_eq_dec new_knots x)%nat) /\
+  incl (mesh kv) (mesh (refine kv new_knots)) /\
+  ((p + 1 <= length kv)%nat -> numdofs (refine kv new_knots) p = (numdofs kv p + length new_knots)%nat).
+Proof. exact refine_nested_l. Qed.
+Print Assumptions refine_nested.
+
+(* NOT PROVED -- what remains without a theorem, clause by clause of the property text:
+   "open, non-decreasing, exactly n spans, equally spaced ending at b, multiplicities, numdofs":
+       all theorems over exact rationals (the make_knots_... theorems).  In binary64 only the bounded
+       make_knots_float_bounded_2000 (16 listed intervals, n <= 2000, every p and mult); other
+       intervals / n > 2000 / the accuracy |y_i - (a+i(b-a)/n)| <= 4 eps|b-a| + 2 eps max|a|,|b| of the
+       float break points are decided by the bit-exact tie and the Fraction oracle only.
+   "span lookup returns the unique non-empty span (last one at the right end)": theorems (C02
+       findspan_spec/unique, make_knots_findspan(_unique), findspans_spec, first_active_range, first_active_all_spec).  That the
+       compiled pyx_findspan on doubles equals the Qc model is the exact tie (floats are exact rationals).
+   "mesh, support, span-index, mesh-support and Greville queries mutually consistent, Greville inside the
+       domain": theorems for every knot vector (mesh_strict .. support_all_mesh, the greville_... theorems).  Without
+       theorem: non-singularity of the Greville collocation matrix (Schoenberg-Whitney theorem); proved are
+       its hypotheses greville_unisolvent_partial and greville_diag_pos.  The binary64 Greville points
+       (np.convolve rounding, the clip that exists for it) are bounded by the tie (2(p+2) eps max|kv|).
+   "refinement returns the sorted union (uniform refinement halves every span)": theorems for every knot
+       vector (refine_sorted_union, refine_nested, refine_uniform_halves).  The float midpoint (x+y)/2 is
+       compared within 2 eps max|kv| by the tie.
+   "equality is reflexive and symmetric": theorems about the rational model of the repaired tolerance
+       (eq_refl, eq_sym; np.allclose form refuted).  The binary64 evaluation of __eq__ is compared away
+       from the threshold and scanned over adjacent floats for asymmetry; no theorem about the float
+       comparison (it is symmetric by commutativity of IEEE |x-y| and max, which is not formalised).
+   "derivative of a spline as a spline equals its pointwise derivative": theorem (derivative_spline) against
+       C02's dNref; that dNref is the analytic derivative of Nref away from knots is C02's business;
+       scipy's splev (Spline.eval / deriv) is not modelled, only compared with itself by the oracle.
+   Not modelled at all: KnotVector.copy/__str__/__repr__, numdofs(kvs) for tuples. *)
